@@ -407,10 +407,10 @@ class Bus (objects.DBusObject):
 
                 return client.NAME_ALREADY_OWNER
             else:
-                if not replace_existing:
-                    return client.NAME_IN_USE
-
-                if owner.busNames[name]:
+                if replace_existing and owner.busNames[name]:
+                    if caller in queue:
+                        # it was waiting for the name: no second entry
+                        queue.remove(caller)
                     del queue[0]
                     queue.insert(0, caller)
                     del owner.busNames[name]
@@ -420,9 +420,16 @@ class Bus (objects.DBusObject):
                     return client.NAME_ACQUIRED
                 else:
                     if do_not_queue:
+                        if caller in queue:
+                            # a waiting client that now declines queueing
+                            queue.remove(caller)
+                            del caller.busNames[name]
                         return client.NAME_IN_USE
 
-                    queue.append(caller)
+                    # queued unless queueing was declined - whether or not
+                    # replacement was asked for - and only once
+                    if caller not in queue:
+                        queue.append(caller)
                     caller.busNames[name] = allow_replacement
 
                     return client.NAME_IN_QUEUE
